@@ -257,6 +257,8 @@ def run_shard(spec, rec):
     det = JSONPathEnvironment()
     abn = __import__("vf.oracle.abnf", fromlist=["x"]).get(True)
     orders = Orders(cap=20000)
+    # the listed finding's own witness, so that it is observed (and still attributed) on every run
+    one(rec, R, nd, det, abn, orders, "$..[*]", [[[1], [2]], [3]], spec["max_leaves"], exhaustive=True)
     for i in range(spec["small"]):
         if i % 2 == 0:
             text = R.choice(["$..[*]", "$..*", "$..[0]", "$..[?@]", "$[*]..[*]", "$..[*]..[0]"])
